@@ -41,7 +41,11 @@ var c10WorkerHangs = 0
 var errC10Injected = errors.New("c10: injected connection error")
 var errC10Skip = errors.New("c10: phase not reached")
 
-const c10Watchdog = 4 * time.Second
+// c10Watchdog bounds every wait whose expiry is a failing verdict (healthy cases take ~2 ms, so this
+// is > 10000x; the box may be very busy). Waits are channel receives or polls to this deadline;
+// an expiry is re-run once alone in a fresh process before it counts. Stalls that the property
+// wants to end by a timeout use the connection's own (virtual) read deadline, never this.
+const c10Watchdog = 30 * time.Second
 
 // c10Conn is the client's end. Like a real net.Conn (and unlike the bare memConn) a locally closed
 // connection fails reads and writes with net.ErrClosed instead of reporting a clean EOF.
@@ -118,6 +122,7 @@ type c10Scenario struct {
 	sample        bool                       // literal bodies are sampled on the quick tier
 	allModesQuick bool                       // quick tier runs every mode (default: the first two)
 	greetQuick    bool                       // quick tier cuts inside the greeting too
+	noHealthy     bool                       // without a cut the program ends only when the caller closes the client
 }
 
 // c10B accumulates one scenario instance.
@@ -473,7 +478,7 @@ func c10RunCase(b *c10B, k int, fault string, watchdog time.Duration) c10Obs {
 	// the caller always closes the client in the end
 	doClose()
 	if obs.hung {
-		watchdog /= 4 // the case already failed: do not spend the full watchdog on every further wait
+		watchdog /= 8 // the case already failed: do not spend the full watchdog on every further wait
 	}
 	t2 := time.NewTimer(watchdog)
 	select {
@@ -616,7 +621,7 @@ func c10RunAll(reqs []c10Req) []string {
 		wg.Add(1)
 		go func() {
 			defer wg.Done()
-			pool := &workerPool{name: "c10", timeout: 6 * c10Watchdog, memMB: 0, maxBad: 3}
+			pool := &workerPool{name: "c10", timeout: 5 * c10Watchdog, memMB: 0, maxBad: 3}
 			for {
 				lo := int(next.Add(chunk)) - chunk
 				if lo >= len(reqs) {
@@ -710,7 +715,9 @@ func genC10(e *emitter, tier string, seed uint64) {
 			if tier == "quick" && mi > 1 && !s.allModesQuick {
 				continue
 			}
-			add(s, mode, b.total, "none", b)
+			if !s.noHealthy {
+				add(s, mode, b.total, "none", b)
+			}
 			sample := s.sample && tier != "thorough"
 			for _, k := range c10Offsets(b, sample, rg) {
 				if tier == "quick" && (mi > 0 || !s.greetQuick) && k < b.greetLen-1 {
